@@ -234,6 +234,17 @@ func runSolver(ctx context.Context, name, bin, file string, timeout time.Duratio
 	}
 	first := strings.TrimSpace(strings.SplitN(s, "\n", 2)[0])
 	st := "error"
+	// a solver error before the answer means the query was malformed: never trust the answer
+	for _, ln := range strings.Split(s, "\n") {
+		ln = strings.TrimSpace(ln)
+		if ln == "sat" || ln == "unsat" || ln == "unknown" {
+			first = ln
+			break
+		}
+		if strings.HasPrefix(ln, "(error") {
+			return SolverResult{Status: "error", Solver: name, Secs: secs, Out: s}
+		}
+	}
 	switch first {
 	case "unsat", "sat", "unknown":
 		st = first
